@@ -8,8 +8,8 @@ def B(qc, tc, **kw):
 BUDGET = {
     "C04": B(2800, 16800),
     "C09": B(2800, 16800),
-    "C01": B(3000, 10000, cpu_limit=120),
-    "C02": B(3000, 10000, cpu_limit=120, foreign=["ASSERT:m_activeOp"]),
+    "C01": B(3000, 8000, cpu_limit=120),
+    "C02": B(3000, 8000, cpu_limit=120, foreign=["ASSERT:m_activeOp"]),
     "C03": B(2200, 13200, foreign=["ASSERT:m_activeOp"]),
     "C12": B(2400, 14400, cpu_limit=120, foreign=["ASSERT:m_activeOp"]),
     "C07": B(4500, 15000),
@@ -38,8 +38,8 @@ FUZZ = {
     "C09": dict(group="ring", runs=60000, max_len=482, nkinds=21),
     "C14": dict(group="array", runs=60000, max_len=322, nkinds=17),
     "C19": dict(group="locale", runs=120000, max_len=320, nkinds=0),
-    "C18": dict(group="fileio", runs=150000, max_len=200, nkinds=0),   # raw path strings: d 0x00 n
-    "C17": dict(group="fileio", runs=40000, max_len=1200, nkinds=-17),   # nkinds -17: the C17 layout (see fuzz_main.cpp)
+    "C18": dict(group="fileio", runs=25000, max_len=200, nkinds=0),   # raw path strings: d 0x00 n
+    "C17": dict(group="fileio", runs=15000, max_len=1200, nkinds=-17),   # nkinds -17: the C17 layout (see fuzz_main.cpp)
 }
 
 # small-scope systematic enumeration (thorough tier only): every program of a small program space x every schedule with
